@@ -54,11 +54,52 @@ def parse_oracle(out):
             res["decodefail"] = line
     return res
 
-def run_oracle(prop, trace):
-    rc, out = C.sh([ORACLE, prop, trace, "3"], timeout=3000)
+def run_oracle(prop, trace, trace2=None):
+    rc, out = C.sh([ORACLE, prop, trace] + ([trace2] if trace2 else []) + ["3"], timeout=3000)
     r = parse_oracle(out)
     r["rc"], r["raw"] = rc, out
     return r
+
+def merge_results(rs):
+    out = {"ok": 0, "bad": {}, "summary": "merged", "decodefail": None, "rc": 0, "raw": ""}
+    for r in rs:
+        out["ok"] += r["ok"]
+        out["raw"] += r["raw"]
+        if r["decodefail"] or r["summary"] is None:
+            out["decodefail"] = r["decodefail"] or "no summary"
+        for hid, b in r["bad"].items():
+            if hid in out["bad"]:
+                out["bad"][hid]["pviol"] += b["pviol"]; out["bad"][hid]["mm"] += b["mm"]; out["bad"][hid]["text"] += b["text"]
+            else:
+                out["bad"][hid] = b
+    return out
+
+def evaluate(l1, prop, hist_path, workdir):
+    """runs one history file through the implementation and the oracle; C17 also runs the flag-free twin"""
+    os.makedirs(workdir, exist_ok=True)
+    tp = os.path.join(workdir, "eval.trace")
+    if prop != "C17":
+        rc, o = C.sh([l1, "replay", "-in", hist_path, "-out", tp], timeout=300)
+        if rc != 0:
+            return None
+        return run_oracle(prop, tp)
+    lines = [l for l in open(hist_path).read().splitlines() if l and l[0] in "HOE"]
+    hdr = [l for l in lines if l.startswith("H ")]
+    if not hdr:
+        return None
+    v = hdr[0].split()
+    nf = int(v[2])
+    mods = v[3 + nf:]
+    body = [l for l in lines if not l.startswith("H ") and not l.startswith("E")]
+    fb, ff = os.path.join(workdir, "base.hist"), os.path.join(workdir, "flag.hist")
+    open(fb, "w").write("\n".join(["H 7 0 " + " ".join(mods)] + body + ["E"]) + "\n")
+    open(ff, "w").write("\n".join(["H 7000 " + " ".join(v[2:])] + body + ["E"]) + "\n")
+    tb, tf = os.path.join(workdir, "base.trace"), os.path.join(workdir, "flag.trace")
+    for a, b in ((fb, tb), (ff, tf)):
+        rc, o = C.sh([l1, "replay", "-in", a, "-out", b], timeout=300)
+        if rc != 0:
+            return None
+    return merge_results([run_oracle("C17", tf), run_oracle("C17pair", tb, tf)])
 
 def classify(trace_path, own_kinds):
     """distribution of the generated histories + count of distinct non-trivial ones"""
@@ -107,13 +148,10 @@ def shrink(l1, prop, hist, want, budget_s=60):
     d = os.path.join(C.WORK, prop + C.RTAG, "shrink")
     os.makedirs(d, exist_ok=True)
     def test(ops):
-        hp, tp = os.path.join(d, "h.hist"), os.path.join(d, "t.txt")
+        hp = os.path.join(d, "h.hist")
         open(hp, "w").write(hist.text(ops))
-        rc, _ = C.sh([l1, "replay", "-in", hp, "-out", tp], timeout=120)
-        if rc != 0:
-            return False
-        r = run_oracle(prop, tp)
-        return want(r)
+        r = evaluate(l1, prop, hp, d)
+        return r is not None and want(r)
     ops = hist.ops()
     if not test(ops):
         return ops
@@ -153,12 +191,12 @@ def run(pid, tier, spec):
     t0 = time.time()
     out_lines = []
     with C.Lock("build"):
-        bad = C.grep_forbidden()
+        bad = C.grep_forbidden("Properties/%s.v" % pid)
         if bad:
             print("INTERNAL: forbidden vernacular in the Coq development:\n" + "\n".join(bad))
             return 2
         tr_ok, tr_log = C.run_translator()
-        coq_ok, coq_log = C.coq_make()
+        coq_ok, coq_log = C.coq_make(["Properties/%s.vo" % pid])
         ora_ok, ora_log = C.build_oracle()
         if not ora_ok:
             print("INTERNAL: oracle build failed\n" + ora_log[-3000:])
@@ -192,6 +230,7 @@ def run(pid, tier, spec):
         total_hist = total_events = 0
         stats, dist = {}, {}
         first_bad = None
+        flagsets = set()
 
         def handle_bad(hists, res, tracefile):
             nonlocal first_bad, viol_reported
@@ -243,9 +282,34 @@ def run(pid, tier, spec):
                 rc, o = C.sh(cmd, timeout=3000)
                 if rc != 0:
                     print("INTERNAL: harness run failed\n" + o[-3000:]); return 2
-                r = run_oracle(pid, tp)
-                if r["decodefail"] or r["summary"] is None:
-                    print("INTERNAL: oracle failed: %s" % r["raw"][-2000:]); return 2
+                if spec.get("mode") == "flags":
+                    # the same histories under sampled flag sets: model correspondence on the flagged runs
+                    # and the pairwise filter relation against the flag-free run
+                    tpf = os.path.join(wd, "gen-%d.flags.trace" % sidx)
+                    rc, o = C.sh([l1, "flagrun", "-in", tp, "-out", tpf, "-seed", str(C.seed() + sidx),
+                                  "-per", "0" if tier == "thorough" else "4"], timeout=3000)
+                    if rc != 0:
+                        print("INTERNAL: harness flag run failed\n" + o[-3000:]); return 2
+                    r0 = run_oracle(pid, tp)
+                    r = run_oracle(pid, tpf)
+                    rp_ = run_oracle("C17pair", tp, tpf)
+                    for rr in (r0, r, rp_):
+                        if rr["decodefail"] or rr["summary"] is None:
+                            print("INTERNAL: oracle failed: %s" % rr["raw"][-2000:]); return 2
+                    hf = split_trace(tpf)
+                    handle_bad(split_trace(tp), r0, tp)
+                    handle_bad(hf, rp_, tpf)
+                    stats["flagged_runs"] = stats.get("flagged_runs", 0) + len(hf)
+                    flagsets.update(h.header.split(" ", 2)[2] for h in hf.values())
+                    total_hist += len(hf)
+                    handle_bad(hf, r, tpf)
+                    r = {"bad": {}, "ok": 0}
+                    try: os.remove(tpf)
+                    except OSError: pass
+                else:
+                    r = run_oracle(pid, tp)
+                    if r["decodefail"] or r["summary"] is None:
+                        print("INTERNAL: oracle failed: %s" % r["raw"][-2000:]); return 2
                 cl, hists = classify(tp, set(spec["own_kinds"]))
                 for kk, v in json.load(open(sp)).items():
                     stats[kk] = stats.get(kk, 0) + v
@@ -298,25 +362,24 @@ def run(pid, tier, spec):
             "distribution": {k: v for k, v in dist.items() if k != "samples"}, "generator_stats": stats,
             "tie_broken": tie_broken,
         }
+        if flagsets:
+            cov["distinct_flag_sets"] = len(flagsets)
         C.write_evidence(pid, tier, cov, spec.get("assumptions", []), time.time() - t0, 1 if viol_reported else 0)
         return 1 if viol_reported else 0
 
 def replay(pid, path):
     with C.Lock("build"):
-        C.run_translator(); C.coq_make()
+        C.run_translator()
         ok, log = C.build_oracle()
         h_ok, h_log, l1 = C.build_harness("l1")
         if not (ok and h_ok):
             print("INTERNAL: build failed\n" + (log if not ok else h_log)[-2000:]); return 2
-        tp = os.path.join(C.WORK, pid + C.RTAG, "replay.trace")
-        os.makedirs(os.path.dirname(tp), exist_ok=True)
-        rc, o = C.sh([l1, "replay", "-in", path, "-out", tp])
-        if rc != 0:
-            print(o); return 2
-        r = run_oracle(pid, tp)
-        print(r["raw"])
-        if any(b["pviol"] for b in r["bad"].values()):
-            C.violation(pid, path); return 1
-        if r["bad"]:
-            C.violation(pid, path, no_input=True); return 1
-        return 0
+    r = evaluate(l1, pid, path, os.path.join(C.WORK, pid + C.RTAG, "replay"))
+    if r is None:
+        print("INTERNAL: could not replay " + path); return 2
+    print(r["raw"])
+    if any(b["pviol"] for b in r["bad"].values()):
+        C.violation(pid, path); return 1
+    if r["bad"]:
+        C.violation(pid, path, no_input=True); return 1
+    return 0
